@@ -12,3 +12,52 @@ class Engine(DbEngine):
     rule = "query-heavy histories: filters derived from stored events' own fields then perturbed, every plan (ids / author+kind / author+tag / kind+tag / tag / author / scrape), 1-3 values per tag letter, 1-2 letters, since/until absent/equal/inverted/future/0/2^64-1, limit 0,1,2,3,5,2^32-1,absent, screening tables with Mismatch/Redacted entries, scrape allowances; >= 3 events per (author,kind) and tag value with equal timestamps at the cut. oracle (vs ADb.a_qualifying): returned events all qualify, no duplicates, newest first, count = min(limit, qualifying), created_at multiset = that of the newest k, redacted flag sound, scraper refusal only when justified, no panic (both profiles). non-trivial = history with >= 2 stores"
     trusted = DbEngine.db_trusted
     assumptions = ['tag constraints have single-letter names (the only ones the JSON syntax can express and the indexes hold)', 'Time::now is at least 10^7 s away from generated since/until values']
+
+    def generate(self, rng, tier):
+        import random
+        from dbgen import HistGen, AUTHORS, fake_id
+        out = super().generate(rng, tier)
+        # limit blocks: several index ranges of ONE query (values of a tag letter / kinds of an author / authors), each holding
+        # a handful of events with interleaved timestamps, asked with every limit below the number of matches through
+        # every plan that can serve it: the per-range counters and the moving since are exercised on every history
+        for i in range(40 if tier == "quick" else 1500):
+            sub = random.Random(rng.getrandbits(64))
+            g = HistGen(sub, {"new": 1}, 0).run()
+            nr = sub.choice([2, 2, 3, 4])
+            letter = sub.choice([b"t", b"e", b"p"])
+            vals = [b"v%d" % j for j in range(nr)]
+            kinds = sub.sample([1, 7, 30023, 10002, 4], nr) if sub.random() < 0.5 else [1] * nr
+            auths = sub.sample(AUTHORS, min(nr, len(AUTHORS))) if sub.random() < 0.5 else [AUTHORS[0]] * nr
+            times = sub.sample(range(100, 100 + 12 * nr), sub.randrange(nr + 1, 5 * nr + 1))
+            if sub.random() < 0.3:
+                times = [t_ - t_ % 3 for t_ in times]          # ties
+            evs = []
+            for t_ in times:
+                j = sub.randrange(nr)
+                k_ = kinds[j % len(kinds)]
+                tags = [[letter, vals[j]]] + ([[b"d", b"blk%d" % len(evs)]] if 30000 <= k_ < 40000 else [])
+                if 10000 <= k_ < 20000:
+                    k_ = 1                                       # one holder per address would hide the block
+                e = g.new_event(kind=k_, pk=auths[j % len(auths)], created=t_, tags=tags)
+                e["content"] = b"b%d" % len(evs)
+                e["id"] = fake_id(e)
+                g.op_store(e)
+                g.note_event(e)
+                evs.append(e)
+            base = {"ids": [], "authors": [], "kinds": [], "tags": [], "since": None, "until": None, "limit": None}
+            n = len(evs)
+            ks = sorted({e["kind"] for e in evs})
+            as_ = sorted({e["pk"] for e in evs})
+            sub.shuffle(vals)
+            shapes = [{"tags": [[letter] + vals]}, {"tags": [[letter] + vals], "kinds": ks}, {"tags": [[letter] + vals], "authors": as_},
+                      {"authors": as_, "kinds": ks}, {"authors": as_}, {"kinds": ks}, {"authors": as_, "kinds": ks, "tags": [[letter] + vals[:2]]}]
+            for sh in shapes:
+                for lim in sorted(set([1, 2, max(1, n // 2), max(1, n - 1)])) if tier != "quick" else sub.sample(sorted(set([1, 2, max(1, n // 2), max(1, n - 1)])), 2):
+                    f = dict(base)
+                    f.update(sh)
+                    f["limit"] = lim
+                    if sub.random() < 0.2:
+                        f["since"] = min(times) + sub.choice([0, 3, 7])
+                    g.ops.append(("query", f, [], 1, 100, 10 ** 6, g.now))
+            out.append(("limit-block", g.render(obs_every=1000)))
+        return out
